@@ -66,8 +66,8 @@ def strip_meta(cfg):
     Returns:
         A copy of the configuration object excluding all metadata keys.
     """
-    if cfg:
-        cfg = recreate_branches(cfg, skip_keys=meta_keys)
+    if cfg is not None:
+        cfg = recreate_branches(cfg, skip_keys=meta_keys)  # also when empty: "a copy", as documented
     return cfg
 
 
